@@ -24,14 +24,91 @@ def _usable_call(g, ctx, mix, base, tries=6):
     return mk('get_res0_cells')
 
 
+def _same_cell_anchor(g):
+    p, res = g.base()
+    res = max(2, min(res, 20)) if g.rng.random() < 0.8 else res
+    return {'p': p, 'res': res, 'cell': g.cell_at(p, res)}
+
+
+def _same_cell_call(g, ctx, sc):
+    """One of the geometry functions, about one and the same cell."""
+    r = g.rng
+    x = r.randrange(5)
+    if x == 0:
+        return mk('lonlat_to_cell', sc['p'], sc['res'])
+    if x == 1:
+        return mk('cell_to_lonlat', sc['cell'])
+    if x == 2:
+        return mk('cell_to_boundary', sc['cell'], {'segments': r.choice([1, 1, 2])})
+    if x == 3:
+        return mk('cell_to_boundary', sc['cell'], *g.boundary_options())
+    c = ctx.value(mk('cell_to_lonlat', sc['cell']))
+    if isinstance(c, tuple) and len(c) == 2:
+        return mk('lonlat_to_cell', c, sc['res'])
+    return mk('lonlat_to_cell', sc['p'], sc['res'])
+
+
+SWEEP_KINDS = ['samecell-cold', 'samecell-other', 'repeat-recent', 'identical-cold', 'sameface-cold',
+               'far-cold', 'samecell-hot', 'edge-cold']
+
+
+def gen_sweep(ctx, rng, kind):
+    """An adversarially chosen pair (A, B) with a warm-up, for an exhaustive
+    context-bound-2 sweep over A's preemption points."""
+    g = Gen(rng, ctx)
+    cheap = {'segments': 1}
+    sc = _same_cell_anchor(g)
+    if kind.startswith('edge'):
+        p = g.point('edge')
+        res = rng.randint(2, 9)
+        sc = {'p': p, 'res': res, 'cell': g.cell_at(p, res)}
+
+    def geo(sc_, which):
+        if which == 0:
+            return mk('cell_to_boundary', sc_['cell'], cheap)
+        if which == 1:
+            return mk('cell_to_lonlat', sc_['cell'])
+        return mk('lonlat_to_cell', sc_['p'], sc_['res'])
+
+    wa, wb = rng.randrange(3), rng.randrange(3)
+    warm = []
+    if kind in ('samecell-cold', 'samecell-other', 'samecell-hot', 'edge-cold'):
+        A, B = geo(sc, wa), geo(sc, wb if wb != wa else (wa + 1) % 3)
+        if kind == 'samecell-other':
+            warm = [geo(_same_cell_anchor(g), rng.randrange(3))]
+        elif kind == 'samecell-hot':
+            warm = [A, B]
+    elif kind == 'repeat-recent':
+        A = geo(sc, wa)
+        B = geo(_same_cell_anchor(g), wb)
+        warm = [A]
+    elif kind == 'identical-cold':
+        A = geo(sc, wa)
+        B = dict(A)
+    elif kind == 'sameface-cold':
+        A = geo(sc, wa)
+        p2 = g._offset(sc['p'], rng.uniform(3.0, 25.0))
+        r2 = rng.randint(2, 12)
+        B = geo({'p': p2, 'res': r2, 'cell': g.cell_at(p2, r2)}, wb)
+    else:
+        A = geo(sc, wa)
+        B = geo(_same_cell_anchor(g), wb)
+    threads = [[A], [B]]
+    solo = [[ctx.oracle(c)['steps'] for c in tc] for tc in threads]
+    est = sum(sum(x) for x in solo)
+    return {'threads': threads, 'warm': warm, 'plan': {'plan': 'one', 'a': 0, 'k': 0, 'order': [1]}, 'seed': 0,
+            'budget': 20 * est + 100_000, 'est_len': est, 'gran': 'line', 'post': True,
+            'conf': {'T': 2, 'locality': kind, 'mix': 'geo', 'temp': kind.split('-')[-1], 'counts': [1, 1]}}
+
+
 def gen_spec(ctx, rng, tier, force=None):
     """Draw one run: configuration (swarm), workload, plan."""
     force = force or {}
     g = Gen(rng, ctx)
     T = force.get('T') or rng.choice([2, 2, 2, 3, 3, 4])
-    locality = force.get('locality') or wchoice(rng, {'identical': 12, 'near': 38, 'face': 15, 'far': 35})
+    locality = force.get('locality') or wchoice(rng, {'identical': 10, 'samecell': 15, 'near': 30, 'face': 13, 'far': 32})
     mix = force.get('mix') or wchoice(rng, {'forward': 15, 'inverse': 15, 'boundary': 15, 'geo': 35, 'all': 20})
-    temp = force.get('temp') or wchoice(rng, {'cold': 45, 'warm': 30, 'hot': 25})
+    temp = force.get('temp') or wchoice(rng, {'cold': 40, 'warm': 22, 'hot': 18, 'recent': 12, 'other': 8})
     gran = force.get('gran') or ('instr' if (tier == 'thorough' and rng.random() < 0.1) else 'line')
     counts = [rng.randint(1, 3) for _ in range(T)]
     while sum(counts) > 9:
@@ -43,6 +120,8 @@ def gen_spec(ctx, rng, tier, force=None):
         base = g.base()
         one = [_usable_call(g, ctx, mix, base) for _ in range(counts[0])]
         threads = [[dict(c) for c in one] for _ in range(T)]
+    elif locality == 'samecell':
+        threads = [[_same_cell_call(g, ctx, sc) for _ in range(n)] for sc in [_same_cell_anchor(g)] for n in counts]
     elif locality == 'near':
         base = g.base()
         threads = [[_usable_call(g, ctx, mix, base) for _ in range(n)] for n in counts]
@@ -61,12 +140,23 @@ def gen_spec(ctx, rng, tier, force=None):
             warm.append(_usable_call(g, ctx, 'geo', g.base() if rng.random() < 0.5 else None))
     elif temp == 'hot':
         warm = [dict(c) for tc in threads for c in tc]
+    elif temp == 'recent':
+        # some thread's first call repeats the most recent call made before the threads start
+        for _ in range(rng.randint(0, 3)):
+            warm.append(_usable_call(g, ctx, 'geo', g.base()))
+        warm.append(dict(threads[rng.randrange(T)][0]))
+    elif temp == 'other':
+        # state is non-empty but was left by calls about other cells
+        for _ in range(rng.randint(1, 2)):
+            warm.append(_usable_call(g, ctx, 'geo', g.base()))
     solo = [[ctx.oracle(c)['steps'] for c in tc] for tc in threads]
     est = sum(sum(s) for s in solo)
     budget = 20 * est + 100_000
-    plan_kind = force.get('plan') or wchoice(rng, {'rw': 33, 'pct': 14, 'one': 38, 'rr': 15})
+    plan_kind = force.get('plan') or wchoice(rng, {'rw': 22, 'rwh': 16, 'pct': 12, 'one': 38, 'rr': 12})
     if plan_kind == 'rw':
         plan = {'plan': 'rw', 'p': rng.choice(RW_P)}
+    elif plan_kind == 'rwh':
+        plan = {'plan': 'rwh', 'p_hot': rng.choice([1.0, 0.5, 0.25, 0.1]), 'p_cold': rng.choice([0.0, 0.0, 1 / 512])}
     elif plan_kind == 'pct':
         plan = {'plan': 'pct', 'd': rng.choice([1, 2, 3])}
     elif plan_kind == 'rr':
@@ -75,21 +165,27 @@ def gen_spec(ctx, rng, tier, force=None):
         a = rng.randrange(T)
         total = max(1, sum(solo[a]))
         k = rng.randrange(total)
-        by_loc = False
-        if rng.random() < 0.5:
-            # choose the preemption point uniformly over distinct source lines of A's
-            # solo trace (then a random occurrence), so rare lines get equal weight
+        by_loc = 'uniform'
+        mode = wchoice(rng, {'uniform': 25, 'line': 25, 'hot': 50})
+        if mode != 'uniform':
+            # 'line': uniform over the distinct source lines of A's solo trace (rare lines get
+            # equal weight); 'hot': uniform over the distinct lines that touch process-global
+            # state, preempting right before or right after such a line
             off = 0
             locs = {}
             for c, n in zip(threads[a], solo[a]):
                 tr = ctx.oracle(c, want_trace=True)['trace'] or []
                 for j, l in enumerate(tr):
-                    locs.setdefault(l, []).append(off + j)
+                    if mode == 'line':
+                        locs.setdefault(l, []).append(off + j)
+                    elif l in ctx.hot:
+                        locs.setdefault(l, []).append(off + j)
+                        locs.setdefault(l + '+', []).append(off + j + 1)
                 off += n
             if locs:
                 l = rng.choice(sorted(locs))
                 k = rng.choice(locs[l])
-                by_loc = True
+                by_loc = mode
         order = [x for x in range(T) if x != a]
         rng.shuffle(order)
         plan = {'plan': 'one', 'a': a, 'k': k, 'order': order, 'by_loc': by_loc}
@@ -139,7 +235,7 @@ def _explainable(ctx, spec, res, limit=1700):
         s = {'threads': spec['threads'], 'warm': spec['warm'], 'order': order}
         r = ctx.run_seq(s)
         got = [[x[0] for x in row] for row in r['results']]
-        if got == observed and (res['post'] is None or r['post'] == res['post']):
+        if got == observed and (res['post'] is None or (r['post'] == res['post'] and r['post_seq'] == res['post_seq'])):
             return order
     return None
 
@@ -174,11 +270,15 @@ def judge(ctx, spec, res, explain=True):
         if v:
             break
     if v is None and res['post'] is not None:
-        for t, tc in enumerate(spec['threads']):
-            for i, c in enumerate(tc):
-                if res['post'][t][i] != exp[t][i]['outcome']:
-                    v = {'kind': 'poisoned-after-quiescence', 'thread': t, 'call': i, 'f': c['f'],
-                         'call_repr': call_repr(c), 'expected': exp[t][i]['outcome'], 'observed': res['post'][t][i]}
+        for which in ('post', 'post_seq'):
+            for t, tc in enumerate(spec['threads']):
+                for i, c in enumerate(tc):
+                    if res[which][t][i] != exp[t][i]['outcome']:
+                        v = {'kind': 'poisoned-after-quiescence', 'thread': t, 'call': i, 'f': c['f'],
+                             'call_repr': call_repr(c), 'expected': exp[t][i]['outcome'], 'observed': res[which][t][i],
+                             'when': 'issued first after quiescence' if which == 'post' else 'issued in sequence after quiescence'}
+                        break
+                if v:
                     break
             if v:
                 break
